@@ -632,7 +632,11 @@ example : (callTV [((0 : Int), Coef.const (1 : Rat)), (1, Coef.const 1)]
   decide +kernel
 example := call_reads_once [((0 : Int), Coef.const (1 : ℚ)), (1, Coef.const 1)]
   [(0, Coef.strm [2, 3]), (1, Coef.const 1)] Mem.none 0 [1, 1, 1]
-  (by simp) (by simp) (by simp) (by simp) (by simp [coefAt]) 1
+  (by simp) (by simp) (by simp) (by simp) (by simp [coefAt]) 1 [1/2, 1/2] ⟨[[], []], [[]]⟩
+  (by decide +kernel) (by simp)
+/-- C06.9b: hypotheses satisfiable (on the corner object itself) -/
+example := allzero_stream_gain_shape ([] : Terms (Coef ℚ)) [] [2, 3] (by simp) (by simp) (by simp) (by simp)
+  (by simp [dense, order])
 /-- C06.10a: `ZFilter({0:1, 1:Stream(1..8)}, {0:2, 1:Stream(1,1/2,…,1/8)})` called twice on `[1,1,1]`
 (the values observed on the real code: 1/2, 11/8, 85/48 then 1/2, 59/20, 781/240) -/
 example : (callTwice [((0 : Int), Coef.const (1 : Rat)), (1, Coef.strm [1, 2, 3, 4, 5, 6, 7, 8])]
